@@ -837,3 +837,16 @@ func CellOfAddr(x ssa.Value) *ssa.Alloc {
 		}
 	}
 }
+
+// InstrDominates reports whether instruction a strictly dominates b (same
+// function): every path from the entry to b executes a first.
+func InstrDominates(a, b ssa.Instruction) bool {
+	if a == b || a.Parent() != b.Parent() {
+		return false
+	}
+	ba, bb := a.Block(), b.Block()
+	if ba == bb {
+		return indexIn(ba, a) < indexIn(bb, b)
+	}
+	return ba.Dominates(bb)
+}
